@@ -12,21 +12,46 @@ use noodles_sam::{
 use self::field::decode_field;
 
 /// BAM record data.
-pub struct Data<'r>(&'r [u8]);
+pub struct Data<'r> {
+    src: &'r [u8],
+    skips_cigar: bool,
+}
 
 impl<'r> Data<'r> {
     pub(crate) fn new(src: &'r [u8]) -> Self {
-        Self(src)
+        Self {
+            src,
+            skips_cigar: false,
+        }
+    }
+
+    // § 4.2.2 "`N_CIGAR_OP` field" (2022-08-22): when the CIGAR is taken from the `CG` field, that
+    // field is part of the CIGAR, not of the data.
+    pub(crate) fn without_cigar(src: &'r [u8]) -> Self {
+        Self {
+            src,
+            skips_cigar: true,
+        }
+    }
+
+    pub(crate) fn skips_cigar(&self) -> bool {
+        self.skips_cigar
     }
 
     /// Returns a byte slice of the raw data.
+    ///
+    /// This includes the overflowing CIGAR (`CG`) field, if present.
     pub fn as_bytes(&self) -> &'r [u8] {
-        self.0
+        self.src
     }
 
     /// Returns whether there are any fields.
     pub fn is_empty(&self) -> bool {
-        self.0.is_empty()
+        if self.skips_cigar {
+            self.iter().next().is_none()
+        } else {
+            self.src.is_empty()
+        }
     }
 
     /// Returns the value of the given tag.
@@ -50,14 +75,18 @@ impl<'r> Data<'r> {
 
     /// Returns an iterator over all tag-value pairs.
     pub fn iter(&self) -> impl Iterator<Item = io::Result<(Tag, Value<'r>)>> + 'r {
-        let mut src = self.0;
+        let mut src = self.src;
+        let skips_cigar = self.skips_cigar;
 
         iter::from_fn(move || {
-            if src.is_empty() {
-                None
-            } else {
-                Some(decode_field(&mut src))
+            while !src.is_empty() {
+                match decode_field(&mut src) {
+                    Ok((Tag::CIGAR, _)) if skips_cigar => {}
+                    result => return Some(result),
+                }
             }
+
+            None
         })
     }
 }
@@ -91,7 +120,7 @@ impl<'r> sam::alignment::record::Data<'r> for Data<'r> {
 
 impl AsRef<[u8]> for Data<'_> {
     fn as_ref(&self) -> &[u8] {
-        self.0
+        self.src
     }
 }
 
@@ -101,10 +130,14 @@ impl<'a> TryFrom<Data<'a>> for sam::alignment::record_buf::Data {
     fn try_from(bam_data: Data<'a>) -> Result<Self, Self::Error> {
         use crate::record::codec::decoder::read_data;
 
-        let mut src = bam_data.0;
+        let mut src = bam_data.src;
         let mut sam_data = Self::default();
         read_data(&mut src, &mut sam_data)
             .map_err(|e| io::Error::new(io::ErrorKind::InvalidData, e))?;
+
+        if bam_data.skips_cigar {
+            sam_data.remove(&Tag::CIGAR);
+        }
 
         Ok(sam_data)
     }
